@@ -60,6 +60,10 @@ SPEC = dict(
              'large-sort-sorted-permutation', 'large-search-finds-iff-present', 'large-sorted-insert-keeps-order-and-elements', 'large-push_sort',
              'large-sort_fore-path-full', 'large-sort_fore-path-spare', 'large-sort_back-path-full', 'large-sort_back-path-spare', 'large-accessors',
              'large-vec-swap-large-with-small', 'large-buf-refuses-when-full', 'large-setz-reuse', 'large-exit-and-reuse', 'large-die-destroys-each-element-once',
+             # wide-element case class (element widths 100 .. 70001 bytes, harness/h_seq.c WIDE-ELEMENT; seeded change C04-I)
+             'wide-case', 'wide-case-wider-than-1024', 'wide-case-wider-than-65536', 'wide-state-compared-with-model', 'wide-returned-pointer-inside-owned-storage',
+             'wide-removed-element-intact-and-past-live-range', 'wide-remove-path-full', 'wide-remove-path-spare', 'wide-remove-path-full-element-ge-4096-bytes',
+             'wide-push-insert', 'wide-store', 'wide-erase', 'wide-vec-swap', 'wide-buf-refuses-when-full', 'wide-destroys-each-dropped-element-once-in-order',
              # public surface of vec.h / buf.h and the a.h loop macros: every form must have been executed and judged (harness/h_seq.c, PUBLIC SURFACE)
              'surface-walk', 'surface-walk-null-storage'] + ['form/' + f for f in (
                  'a_vec_ptr a_vec_at_ a_vec_top_ a_vec_end_ a_vec_push a_vec_pull '
